@@ -102,7 +102,7 @@ def _count(ev, events, src, fam, fname, depth=0):
         elif e[0] == "loop":
             L = e[1]
             b, p = sroot(ev, L.source) if L.source is not None else (("other", None), [])
-            if src.exact(b, p, ev):
+            if src.exact(b, p, ev) or (hasattr(src, "match_term") and L.source is not None and src.match_term(ev, L.source)):
                 n, sh, ss = _traversal(ev, L, fam, fname, depth)
                 total += n
                 if n:
